@@ -1,19 +1,23 @@
 /-
   C18 — validated documents only reference defined codes, keys and rates.
   PARTIAL: only the generic reference rules of Model/Refs.lean are covered
-  (tax combo category / rate / country override, Extensions.Validate, tags,
-  addons, currency and country codes).  The ~35 regime and addon validators
+  (tax combo category / rate / country override, Extensions.Validate — also for
+  the rates of stored tax summaries —, tags (the rule is applied by bill.Invoice
+  only), `tax.prices_include`, addons, currency and country codes).  The ~35 regime and addon validators
   (addon-specific extension requirements etc.) are exercised by the harness,
   not modelled.
 
   Each theorem has the shape  validateX defs x = true → resolvesX defs x,
   for ANY definitions `defs` and any pattern matcher `pm`.
   `combo_sound` needs the hypothesis that the regime applying to the combo is
-  defined; `combo_unchecked_without_regime` states
-  what the code does without it (the known findings of this property).
+  defined; `combo_unchecked_without_regime` and `prices_include_without_regime`
+  state what the code does without it; `doc_tags_unchecked_outside_invoices`
+  states the known finding of this property (`$tags` of orders, deliveries and
+  payments are not compared with the defined tags).
 -/
 import GoblVerif.Spec.C18
 import GoblVerif.Generated.Defs
+import GoblVerif.Generated.RefsFacts
 
 namespace GoblVerif.Props.C18
 open GoblVerif.Refs GoblVerif.Spec.C18
@@ -201,6 +205,89 @@ theorem tags_sound (docRegime : Option Regime) (addons : List Addon) (schema : S
     obtain ⟨ts, ⟨hts, hs⟩, hk⟩ := hk
     exact ⟨a, ha, ts, hts, hs, hk⟩
 
+/-- the `TagsIn` rule accepts a tag list for a document type for which neither the regime
+    nor an addon in use declares a tag set exactly when the list is empty (no tag set is
+    published today for any type but bill/invoice: applying the rule to the other
+    documents as they stand would refuse every tag, `customer-rates` included) -/
+theorem tags_refused_without_tagset (docRegime : Option Regime) (addons : List Addon) (schema : String)
+    (tags : List String) (hs : supportedTags docRegime addons schema = []) :
+    validateTags docRegime addons schema tags = true ↔ tags = [] := by
+  unfold validateTags
+  rw [hs]
+  cases tags with
+  | nil => simp
+  | cons t ts => simp
+
+/-- **document tags**: on a document type that applies the rule (bill/invoice) accepted
+    tags are offered, for that type, by the regime or by one of the addons in use -/
+theorem doc_tags_sound (docRegime : Option Regime) (addons : List Addon) (schema : String) (tags : List String)
+    (hs : schema ∈ tagCheckedSchemas)
+    (h : validateDocTags docRegime addons schema tags = true) :
+    ∀ t ∈ tags, tagResolves docRegime addons schema t := by
+  unfold validateDocTags at h
+  have hc : tagCheckedSchemas.contains schema = true := by simpa using hs
+  rw [if_pos hc] at h
+  exact tags_sound docRegime addons schema tags h
+
+/-- **known finding, as a theorem about the code's rules**: on the other tagged document
+    types (bill/order, bill/delivery, bill/payment) EVERY tag list passes -/
+theorem doc_tags_unchecked_outside_invoices (docRegime : Option Regime) (addons : List Addon) (schema : String)
+    (tags : List String) (hs : schema ∉ tagCheckedSchemas) :
+    validateDocTags docRegime addons schema tags = true := by
+  unfold validateDocTags
+  have hc : ¬ (tagCheckedSchemas.contains schema = true) := by simpa using hs
+  rw [if_neg hc]
+
+/-- **prices_include**: on a document whose `$regime` was accepted and is not empty, an
+    accepted non-empty `tax.prices_include` names a category of that regime -/
+theorem prices_include_sound (d : Defs) (docCode cat : String)
+    (hreg : validateRegime d docCode = true) (hdoc : docCode ≠ "")
+    (h : validatePricesInclude (d.regimeFor docCode) cat = true) (hc : cat ≠ "") :
+    includesResolves d docCode cat := by
+  rcases regime_sound d docCode hreg with h0 | hsome
+  · exact absurd h0 hdoc
+  · cases hrr : d.regimeFor docCode with
+    | none => rw [hrr] at hsome; cases hsome
+    | some r =>
+      rw [hrr] at h
+      have hmem := regimeFor_some d docCode r hrr
+      unfold validatePricesInclude at h
+      simp only [Bool.or_eq_true, beq_iff_eq, List.any_eq_true] at h
+      rcases h with h0 | ⟨c, hcm, hce⟩
+      · exact absurd h0 hc
+      · exact ⟨r, hmem.1, hmem.2, c, hcm, hce⟩
+
+/-- what the rule does when the validation context carries no regime (a document
+    without `$regime` whose supplier has no tax identity): nothing is compared, any code
+    passes the reference rule (its syntax is still checked by `cbc.Code`) -/
+theorem prices_include_without_regime (cat : String) : validatePricesInclude none cat = true := rfl
+
+/-- the executable `prices_include` check used by the driver is sound for the relation -/
+theorem includesResolvesB_sound (d : Defs) (docCode cat : String)
+    (h : includesResolvesB d docCode cat = true) : includesResolves d docCode cat := by
+  unfold includesResolvesB at h
+  cases hrr : d.regimeFor docCode with
+  | none => rw [hrr] at h; cases h
+  | some r =>
+    rw [hrr] at h
+    have hmem := regimeFor_some d docCode r hrr
+    simp only [List.any_eq_true, beq_iff_eq] at h
+    obtain ⟨c, hcm, hce⟩ := h
+    exact ⟨r, hmem.1, hmem.2, c, hcm, hce⟩
+
+/-- **stored tax summaries**: an accepted `tax.Total` (under `preceding[*].tax`, a
+    payment's `tax`, `lines[*].document.tax`, `totals.taxes`) carries, in every rate of every
+    category, only extension pairs that resolve -/
+theorem stored_total_sound (d : Defs) (pm : PatternMatch) (cats : List CategoryTotal)
+    (h : validateTotal d pm cats = true) : totalResolves d pm cats := by
+  unfold validateTotal at h
+  rw [List.all_eq_true] at h
+  intro ct hct rt hrt
+  have h1 := h ct hct
+  unfold validateCategoryTotal at h1
+  rw [List.all_eq_true] at h1
+  exact ext_sound d pm rt.ext (h1 rt hrt)
+
 /-- **addons**: every accepted addon key is a published addon -/
 theorem addons_sound (d : Defs) (keys : List String) (h : validateAddons d keys = true) :
     ∀ k ∈ keys, addonResolves d k := by
@@ -266,6 +353,87 @@ example : comboResolvesB defs "ES" ⟨"IGIC", "PT", "", []⟩ = false := by deci
 theorem undefined_regime_is_rejected :
     (defs.regimeFor "ZZ").isNone = true ∧ validateRegime defs "ZZ" = false ∧
     validateCombo defs (fun _ _ => true) (defs.regimeFor "ZZ") ⟨"ZZT", "", "", []⟩ = true := by decide +kernel
+
+/-- the hypotheses of `prices_include_sound` are satisfiable on the published definitions -/
+example : validateRegime defs "ES" = true ∧ "ES" ≠ "" ∧
+    validatePricesInclude (defs.regimeFor "ES") "VAT" = true ∧ "VAT" ≠ "" := by decide +kernel
+
+/-- a category no regime publishes is refused as `prices_include` of a Spanish document,
+    a Spanish one is accepted and resolves -/
+theorem undefined_prices_include_is_rejected :
+    validatePricesInclude (defs.regimeFor "ES") "ZZT" = false ∧
+    validatePricesInclude (defs.regimeFor "ES") "IGIC" = true ∧
+    includesResolvesB defs "ES" "IGIC" = true ∧ includesResolvesB defs "ES" "ZZT" = false := by decide +kernel
+
+/-- an undefined tag is refused on an invoice and a published invoice tag accepted; on an
+    order the same undefined tag passes although nothing offers it (the known finding on
+    the published data: no tag set is published for bill/order) -/
+theorem undefined_tag_is_rejected_on_invoices :
+    validateDocTags (defs.regimeFor "ES") [] "bill/invoice" ["zz-undefined"] = false ∧
+    validateDocTags (defs.regimeFor "ES") [] "bill/invoice" ["simplified"] = true ∧
+    (taggedSchemas.filter (!tagCheckedSchemas.contains ·)) = ["bill/order", "bill/delivery", "bill/payment"] ∧
+    validateDocTags (defs.regimeFor "ES") [] "bill/order" ["zz-undefined"] = true ∧
+    tagResolvesB (defs.regimeFor "ES") [] "bill/order" "zz-undefined" = false ∧
+    validateTags (defs.regimeFor "ES") [] "bill/order" ["simplified"] = false := by decide +kernel
+
+/-- the hypothesis of `stored_total_sound` is satisfiable, and an undefined value or key
+    in a rate of a stored summary is refused -/
+theorem undefined_stored_ext_is_rejected :
+    validateTotal defs (fun _ _ => true) [⟨"VAT", [⟨"", "", [("es-tbai-exemption", "E1")]⟩]⟩] = true ∧
+    validateTotal defs (fun _ _ => true) [⟨"VAT", [⟨"", "", [("es-tbai-exemption", "ZZZ")]⟩]⟩] = false ∧
+    validateTotal defs (fun _ _ => true) [⟨"VAT", [⟨"", "", [("zz-undefined-key", "E1")]⟩]⟩] = false := by decide +kernel
+
+/-! ### where the rules are applied (regenerated from bill/*.go, tax/*.go, org/document_ref.go) -/
+section Applied
+open GoblVerif.Generated.RefsFacts
+
+/-- bill.Invoice validates `$tags` with `tax.TagsIn` over its `supportedTags`; Order and
+    Payment have no rule that mentions the field, Delivery lists the embedded `tax.Tags`
+    struct without a rule: `tagCheckedSchemas` is what the code does -/
+theorem tags_rule_applied_by_invoices_only :
+    ("Tags.List", ["tax.TagsIn(inv.supportedTags()...)"]) ∈ rules_Invoice_ValidateWithContext ∧
+    "TagsIn" ∉ calls_Order_ValidateWithContext ∧ "TagsIn" ∉ calls_Delivery_ValidateWithContext ∧
+    "TagsIn" ∉ calls_Payment_ValidateWithContext ∧
+    ((rules_Order_ValidateWithContext.map (·.1)).filter (fun f => f == "Tags" || f == "Tags.List")) = [] ∧
+    ((rules_Payment_ValidateWithContext.map (·.1)).filter (fun f => f == "Tags" || f == "Tags.List")) = [] ∧
+    (rules_Delivery_ValidateWithContext.filter (fun r => r.1 == "Tags" || r.1 == "Tags.List")) = [("Tags", [])] := by
+  decide +kernel
+
+/-- `(*Invoice).supportedTags`: the regime's tag set, then each addon's, merged, then the
+    keys, all looked up with the invoice's own short schema -/
+theorem supportedTags_shape :
+    calls_Invoice_supportedTags =
+      ["RegimeDef", "Merge", "TagSetForSchema", "AddonDefs", "Merge", "TagSetForSchema", "Keys"] ∧
+    schema_Invoice = ["bill/invoice", "bill/invoice"] ∧
+    tagCheckedSchemas = ["bill/invoice"] := by
+  decide +kernel
+
+/-- `TagsIn` refuses the first key not `In` the list; `InCategories` is `validation.In`
+    over the regime's category codes -/
+theorem tag_and_category_rules_shape :
+    calls_tagValidation_Validate = ["In", "Itoa", "Errorf"] ∧
+    calls_RegimeDef_InCategories = ["make", "len", "In"] := by decide +kernel
+
+/-- `bill.Tax` takes the regime from the context and puts its `InCategories` rule on
+    `prices_include` -/
+theorem prices_include_rule_applied :
+    calls_Tax_ValidateWithContext =
+      ["RegimeDefFromContext", "append", "InCategories", "ValidateStructWithContext", "Field", "Field",
+       "InKeyDefs", "Field", "Field"] ∧
+    ("PricesInclude", ["inCategories..."]) ∈ rules_Tax_ValidateWithContext ∧
+    ("Tax", []) ∈ rules_Invoice_ValidateWithContext ∧ ("Tax", []) ∈ rules_Order_ValidateWithContext ∧
+    ("Tax", []) ∈ rules_Delivery_ValidateWithContext := by decide +kernel
+
+/-- a stored tax summary is validated down to the `ext` of its rates, and the places that
+    store one (document references, payments) validate the field -/
+theorem stored_total_rules_applied :
+    rules_Total_Validate = [("Categories", [])] ∧
+    rules_CategoryTotal_Validate = [("Rates", [])] ∧
+    rules_RateTotal_Validate = [("Ext", [])] ∧
+    ("Tax", []) ∈ rules_DocumentRef_ValidateWithContext ∧
+    ("Tax", []) ∈ rules_Payment_ValidateWithContext := by decide +kernel
+
+end Applied
 
 /-- every published extension key has at most one definition, so the registry
     lookup of the model (first match) and of the code (map) agree -/
